@@ -16,6 +16,7 @@ import (
 func c10Round4(c *Ctx, g *CG) {
 	c10GovernanceModel(c, g)
 	c10ProposalIDs(c)
+	c10DistributionChange(c)
 	// (a) seed C10r4/10: what governance EndBlock takes out of the governance deposits pool for a closing proposal is the
 	// amount recorded in that proposal (the amount that was put into the pool for it at submission). Any other amount
 	// (e.g. the current MinProposalDeposit parameter, which a passed change-parameters proposal can raise) can exceed what
@@ -1082,4 +1083,46 @@ func c10ProposalIDs(c *Ctx) {
 		bad += "an iteration can complete without the identifier having been looked up among the ones seen so far (duplicate identifiers)"
 	}
 	c.Check(bad == "", rule, inst, c.P.Pos(fn.Pos()), "no iteration of the loop completes without both tests", "SanityCheckProposals accepts proposals whose identifiers collide with the next identifier or with each other: "+bad+" — a transaction-submitted proposal then replaces a stored one, and when that was a passed upgrade proposal governance BeginBlock fails at the next epoch transition (F61)")
+}
+
+
+// c10DistributionChange (F62): the genesis document is rejected when the total supply cannot be converted to voting
+// power under its distribution, which is what bounds every escrow balance the election converts. A parameter change
+// that sets the distribution is accepted only after the same conversion of the current total supply succeeded.
+func c10DistributionChange(c *Ctx) {
+	const rule = "C10.support"
+	fn := c.needFn(rule, "consensus/cometbft/apps/scheduler.(*Application).changeParameters")
+	if fn == nil {
+		return
+	}
+	c.Analysed[fname(fn)] = true
+	cut := NewCut()
+	n := 0
+	for _, call := range callsIn(fn) {
+		if calleeName(call) != "scheduler/api.VotingPowerFromStake" {
+			continue
+		}
+		a := allArgs(call)
+		if len(a) < 1 || !strings.Contains(vstr(a[0]), ".TotalSupply(") {
+			continue
+		}
+		if es, ok := SuccessEdges(call); ok {
+			cut.AddEdges(es...)
+			n++
+		}
+	}
+	cut.AddEdges(HeldEdges(fn, `ConsensusParameterChanges\.VotingPowerDistribution == nil$`)...)
+	cut.AddEdges(HeldEdges(fn, `^[^!].*\.DebugBypassStake$`)...)
+	cut.AddEdges(HeldEdges(fn, `\.Module != "scheduler"$`)...)
+	var hit ssa.Instruction
+	for _, r := range SuccessReturns(fn) {
+		if h := Reach(fn, nil, nil, isInstr(r), cut); h != nil {
+			hit = h
+		}
+	}
+	site := c.P.Pos(fn.Pos())
+	if hit != nil {
+		site = c.P.InstrPos(hit)
+	}
+	c.Check(n > 0 && hit == nil, rule, fname(fn)+":a change of the voting power distribution is accepted only if the total supply converts under it", site, "every accepting path either leaves the distribution alone or passes the success edge of VotingPowerFromStake(total supply)", "a ChangeParameters proposal can set the voting power distribution without the total supply having been converted under it: with an escrow balance that converts only under the old distribution (sqrt → linear) the next validator election fails and the scheduler's BeginBlock halts the chain (F62)")
 }
